@@ -220,7 +220,16 @@ class ClassParser(BaseParser):
 
         self.fields.update(field_map)
 
+    def resolve_forward_refs(self, local_vars=None, ignore_errors: bool = True):
+        # inherited fields are the base parsers' own field objects, and the references still pending
+        # in them are recorded by those parsers (to be evaluated in their namespaces):
+        # a subclass that is used before its base has to have them resolved first
+        for parser in self.base_parsers:
+            parser.resolve_forward_refs(ignore_errors=ignore_errors)
+        return super().resolve_forward_refs(local_vars=local_vars, ignore_errors=ignore_errors)
+
     def generate_from_bases(self):
+        self.base_parsers = []
         fields = {}
         annotations = {}
         alias_map = {}
@@ -233,6 +242,7 @@ class ClassParser(BaseParser):
             if not isinstance(base, type(self.obj)) or base is object:
                 continue
             parser = self.apply_for(base)  # should use cache
+            self.base_parsers.append(parser)
             # if not parser.options.vacuum:
             #     option_list.append(parser.options)
 
